@@ -352,9 +352,143 @@ func runC15Case(r *ev.Run, c c15Case) (open bool) {
 	return open
 }
 
+// c15UnusableCase: the client's password is one the SCRAM password preparation (OpaqueString) refuses, so no key can
+// be derived from it. The same smtp.Auth value is used for several exchanges against a server that does not know the
+// password and signs with the empty password - the only key material that does not depend on the secret.
+type c15UnusableCase struct {
+	Mech     string `json:"mech"`
+	Pass     string `json:"pass"`
+	Attempts int    `json:"attempts"`
+	Via      string `json:"via"` // direct: smtp.Client.Auth with one Auth value | custom: mail.Client with WithSMTPAuthCustom
+}
+
+type c15UnusableObs struct {
+	Attempt     int    `json:"attempt"`
+	ClientFinal bool   `json:"client_final_sent"`
+	ProofForKey string `json:"proof_verifies_for,omitempty"`
+	Acked       bool   `json:"forged_server_final_acknowledged"`
+	Err         string `json:"error"`
+}
+
+func runC15Unusable(r *ev.Run, c c15UnusableCase) {
+	viol := func(key, what string, obs any) {
+		r.Violate(ev.Violation{Key: key, What: what, Case: c, Observed: obs})
+	}
+	hname, _ := c15Hash(c.Mech)
+	var mu sync.Mutex
+	var obs []c15UnusableObs
+	cur := &c15UnusableObs{}
+	handler := func(io refsmtp.AuthIO, mech string, initial []byte, has bool) refsmtp.Action {
+		x := sasl.NewScram(sasl.ScramConfig{Hash: hname, User: c15User, Password: []byte(""), Salt: []byte("forger-salt-01"), Iterations: 64, ServerNonce: "ForgerNonce0123456789"})
+		first := initial
+		if !has || len(initial) == 0 {
+			resp, cancel, err := io.Challenge(nil)
+			if err != nil || cancel {
+				return actAborted
+			}
+			first = resp
+		}
+		if x.ParseClientFirst(first) != nil {
+			return actBadCreds
+		}
+		resp, cancel, err := io.Challenge(x.ServerFirst())
+		if err != nil {
+			return refsmtp.Action{Kind: refsmtp.Drop}
+		}
+		if cancel {
+			return actAborted
+		}
+		mu.Lock()
+		cur.ClientFinal = strings.HasPrefix(string(resp), "c=")
+		mu.Unlock()
+		if ok, _ := x.VerifyClientFinal(resp); ok {
+			mu.Lock()
+			cur.ProofForKey = "the empty password"
+			mu.Unlock()
+		} else {
+			x.SetClientFinalNoProof(strings.SplitN(string(resp), ",p=", 2)[0])
+		}
+		resp, cancel, err = io.Challenge(x.ServerFinal())
+		if err != nil {
+			return refsmtp.Action{Kind: refsmtp.Drop}
+		}
+		if cancel {
+			return actAborted
+		}
+		mu.Lock()
+		cur.Acked = len(resp) == 0
+		mu.Unlock()
+		return refsmtp.Action{}
+	}
+	farm := &refsmtp.Farm{NewConfig: func(int) *refsmtp.Config {
+		return &refsmtp.Config{AllowUTF8: true, Auth: handler, Caps: func(int, bool) []string { return []string{"AUTH " + c.Mech} }}
+	}}
+	defer farm.Shutdown()
+	var a smtp.Auth
+	if strings.Contains(c.Mech, "256") {
+		a = smtp.ScramSHA256Auth(c15User, c.Pass)
+	} else {
+		a = smtp.ScramSHA1Auth(c15User, c.Pass)
+	}
+	var cl *mail.Client
+	if c.Via == "custom" {
+		var err error
+		cl, err = mail.NewClient(netHost, mail.WithDialContextFunc(farm.Dial), mail.WithTimeout(8*time.Second), mail.WithHELO("client.verif.example"), mail.WithTLSPolicy(mail.NoTLS), mail.WithSMTPAuthCustom(a))
+		if err != nil {
+			r.HarnessError(err.Error())
+			return
+		}
+	}
+	for at := 0; at < c.Attempts; at++ {
+		mu.Lock()
+		cur = &c15UnusableObs{Attempt: at + 1}
+		mu.Unlock()
+		var authErr error
+		if c.Via == "custom" {
+			ctx, cancel := context.WithTimeout(context.Background(), 15*time.Second)
+			authErr = cl.DialWithContext(ctx)
+			cancel()
+			if authErr == nil {
+				_ = cl.Close()
+			}
+		} else {
+			conn, err := farm.Dial(context.Background(), "tcp", "")
+			if err != nil {
+				r.HarnessError(err.Error())
+				return
+			}
+			_ = conn.SetDeadline(time.Now().Add(15 * time.Second))
+			sc, err := smtp.NewClient(conn, netHost)
+			if err != nil {
+				r.HarnessError("NewClient: " + err.Error())
+				return
+			}
+			authErr = sc.Auth(a)
+			_ = conn.Close()
+		}
+		mu.Lock()
+		o := *cur
+		mu.Unlock()
+		if authErr != nil {
+			o.Err = authErr.Error()
+		}
+		obs = append(obs, o)
+		r.Count("exchanges_with_unusable_password", 1)
+		if o.Acked {
+			viol("unusable-password:forged-server-final-acknowledged", fmt.Sprintf("attempt %d with a password the SCRAM preparation refuses (%q): the client acknowledged the server-final of a server that signs with %s", at+1, c.Pass, "the empty password"), obs)
+		}
+		if authErr == nil {
+			viol("unusable-password:auth-success", fmt.Sprintf("attempt %d: authentication reported successful with a password no key can be derived from (%q); the server never held the password", at+1, c.Pass), obs)
+		} else {
+			r.Count("unusable_password_exchanges_failed", 1)
+		}
+	}
+	r.Eval(fmt.Sprintf("unusable|%s|%q|%d|%s", c.Mech, c.Pass, c.Attempts, c.Via), true)
+}
+
 func runC15(r *ev.Run, rep *ev.ReplayDoc) ev.Summary {
 	sum := ev.Summary{
-		Rule: "exhaustive adaptive server message sequences over the alphabet {valid server-first, server-first with foreign / truncated nonce, malformed server-first, valid server-final, server-final of another key, of another exchange, over empty client state, server-error (e=...), empty challenge, junk, 235, 535} up to length 5 (quick: 4), explored as an execution tree (a branch is extended only while the client is still inside the exchange), for SCRAM-SHA-1, SCRAM-SHA-256 and both -PLUS variants (TLS 1.2 and 1.3), through mail.Client and directly through smtp.Client.Auth. 'valid' symbols are computed from what the client actually sent. non-trivial = script deviates from the honest sequence; distinct by (mechanism, script)",
+		Rule: "exhaustive adaptive server message sequences over the alphabet {valid server-first, server-first with foreign / truncated nonce, malformed server-first, valid server-final, server-final of another key, of another exchange, over empty client state, server-error (e=...), empty challenge, junk, 235, 535} up to length 5 (quick: 4), explored as an execution tree (a branch is extended only while the client is still inside the exchange), for SCRAM-SHA-1, SCRAM-SHA-256 and both -PLUS variants (TLS 1.2 and 1.3), through mail.Client and directly through smtp.Client.Auth. 'valid' symbols are computed from what the client actually sent. Plus: passwords the SCRAM password preparation refuses, one smtp.Auth value used for three exchanges against a server that does not know the password and signs with the empty one. non-trivial = script deviates from the honest sequence; distinct by (mechanism, script)",
 		Assumptions: []string{
 			"the honest sequence is: empty challenge -> client-first, server-first, client-final, server-final, empty acknowledgement, 235",
 			"success may only be reported if a valid server-final for the running exchange was acknowledged before the final reply",
@@ -367,6 +501,11 @@ func runC15(r *ev.Run, rep *ev.ReplayDoc) ev.Summary {
 		return sum
 	}
 	if rep != nil {
+		var u c15UnusableCase
+		if err := json.Unmarshal(rep.Case, &u); err == nil && u.Attempts > 0 {
+			runC15Unusable(r, u)
+			return sum
+		}
 		var c c15Case
 		if err := json.Unmarshal(rep.Case, &c); err != nil {
 			r.HarnessError("bad replay case: " + err.Error())
@@ -418,5 +557,15 @@ func runC15(r *ev.Run, rep *ev.ReplayDoc) ev.Summary {
 		})
 		level = next
 	}
+	// passwords the SCRAM password preparation refuses, the same Auth value used for several exchanges
+	var ucases []c15UnusableCase
+	for _, mech := range []string{"SCRAM-SHA-256", "SCRAM-SHA-1"} {
+		for _, pw := range []string{"secret\n", "\x01ctl", "tab\tinside", "line\r\nbreak", "", "del\x7f"} {
+			for _, via := range []string{"direct", "custom"} {
+				ucases = append(ucases, c15UnusableCase{Mech: mech, Pass: pw, Attempts: 3, Via: via})
+			}
+		}
+	}
+	r.Parallel(len(ucases), func(i int) { runC15Unusable(r, ucases[i]) })
 	return sum
 }
